@@ -1286,9 +1286,11 @@ impl<'a> Interp<'a> {
                         self.m_admit(index, conflict, c, val, created, ttl);
                         let u2 = self.m.used();
                         if u2 > self.m.max_cost {
+                            // C07: while room is lacking residents are evicted one at a time; an
+                            // admission that leaves the total above max_cost stopped too early
                             self.fail(
                                 "admission_restores_bound",
-                                P_C01,
+                                &["C01", "C07"],
                                 format!("after admitting key {} (cost {}) the charged total {} exceeds max_cost {}", index, c, u2, self.m.max_cost),
                             );
                         }
